@@ -951,6 +951,8 @@ def correspond(ctx):
         stream_std(ctx, pool, programs)
         stream_hydrogens(ctx, pool, programs)
         stream_neutralize(ctx, pool, programs)
+        stream_neutralize_exact(ctx, pool, programs)
+        stream_charges(ctx, pool, programs)
         if not ctx.quick:
             stream_tiny(ctx, programs)
     relational(ctx, pool, programs)
@@ -1196,6 +1198,213 @@ def stream_neutralize(ctx, pool, programs):
             ctx.sample({'stream': 'NEUT', 'molecule': lab, 'model': resp[:120]})
         if not resp.startswith('ok 1'):
             disagree(ctx, 'NEUT', lab, line, 'real result' + (' (changed)' if changed else ' (none)'), resp)
+
+
+# ------------------------------------------------------------------------------------------------
+# round 5: exact `_neutralize` (both keep_charge values, donors / acceptors compared) and `standardize_charges`
+# ------------------------------------------------------------------------------------------------
+
+CP_ANIONS = ['[CH-]1C=CC=C1', 'C[C-]1C=CC=C1', 'CC1=C[CH-]C=C1', 'CC1=CC=C[CH-]1', 'CC1=C(C)[CH-]C=C1', 'C1=CC2=CC=CC=C2[CH-]1',
+             '[CH-]1C=CC2=CC=CC=C12', 'CC1=C[CH-]C(C)=C1', 'C[C-]1C=CC=C1.[Fe+2].C[C-]1C=CC=C1', 'CC1=C[CH-]C=C1.[Fe+2].[CH-]1C=CC=C1',
+             'c1cc[cH-]c1', 'Cc1c[cH-]cc1.[Li+]', 'N#CC1=C[CH-]C=C1', 'OC1=C[CH-]C=C1', 'CC1=CC(C)=C[CH-]1', 'C1=C[N-]C=C1', '[CH-]1C=CC=N1',
+             'CC1=C[CH-]C=C1C1=CC=C[CH-]1', 'C[n+]1cc[nH]c1.CC1=C[CH-]C=C1', 'Cn1cc[nH+]c1.C[C-]1C=CC=C1']
+NEUTRALIZE_EXTRA = ['C[NH+](C)[O-].CC(=O)[O-]', 'C[NH+](C)[O-].[NH4+].[Cl-]', 'C[NH+](C)[O-].CC(=O)[O-].[NH4+]', '[NH3+]CC([O-])=O',
+                    '[O-]P(=S)(O)O.[NH4+]', 'C[S-].[NH4+]', 'C[N-]C.[NH4+]', '[O-][N+](=O)[O-].[NH4+]', '[F-].C[NH3+]', '[OH-].[NH4+]',
+                    'C[NH+]=C(N)N.CC([O-])=O', 'c1cc[nH+]cc1.[O-]c1ccccc1', '[O-]C(=O)C[NH2+]CC[NH3+].[O-]C(C)=O',
+                    '[Na+].[O-]C(=O)C[NH3+]', '[O-]C(=O)C([O-])C[NH3+].[NH4+]', 'C[Se-].C[NH2+]C', '[O-]Cl(=O)(=O)=O.C[NH3+]',
+                    '[O-]S(=O)(=O)C.[NH3+]c1ccccc1', '[NH3+]O.[Cl-]', 'C[NH2+][O-]', 'C[N+](C)(C)C.[OH-]', '[O-][Si](C)(C)=O.[NH4+]']
+
+
+def charge_instances(ctx):
+    """inputs for `standardize_charges`: every spelling documented in `_charged.py` (+ N-methylated), monocyclic azolium cations,
+    two cations in one molecule (the `seen` overlap test), cyclopentadienyl anions with the charge drawn on every position
+    (the ferrocene branch) - each also under random renumbering (match order / Morgan tie-breaks)."""
+    rng = ctx.rng
+    base = []
+    for a, b in charged_documented():
+        for smi in (a, b):
+            if smi:
+                base.append(smi)
+    base += MONO_AZOLIUM + CP_ANIONS
+    mols = []
+    for smi in dict.fromkeys(base):
+        m = molgen.parse(smi)
+        if m is None:
+            continue
+        mols.append((smi, m))
+        try:
+            k = n_methylated(m)
+        except Exception:
+            k = None
+        if k is not None:
+            mols.append((smi + ':NMe', k))
+    out = []
+    for smi, m in mols:
+        out.append((f'chg:{smi}', m))
+    cat = [x for x in mols if '+' in x[0]]
+    for _ in range(6 if ctx.quick else 40):
+        (s1, _m1), (s2, _m2) = rng.choice(cat), rng.choice(mols)
+        mm = molgen.parse(s1.split(':')[0] + '.' + s2.split(':')[0])
+        if mm is not None:
+            out.append((f'chg2:{s1}.{s2}', mm))
+    res = []
+    for lab, m in out:
+        res.append((lab, m))
+        for i in range(1 if ctx.quick else 4):
+            try:
+                r, _ = molgen.renumber(rng, m)
+            except Exception:
+                continue
+            res.append((f'{lab}#r{i}', r))
+    return res
+
+
+class _Orders:
+    """records every `atoms_order` the real code computes while active (the Morgan ranks are an input of the model, like the SSSR)"""
+
+    def __enter__(self):
+        from chython.containers import MoleculeContainer
+        self.cls = MoleculeContainer
+        self.orig = None
+        for k in MoleculeContainer.__mro__:
+            if 'atoms_order' in k.__dict__:
+                self.owner, self.orig = k, k.__dict__['atoms_order']
+                break
+        self.got = []
+        me = self
+
+        class Rec:
+            def __get__(self, obj, cls=None):
+                if obj is None:
+                    return self
+                v = me.orig.__get__(obj, cls)
+                me.got.append(dict(v))
+                return v
+        setattr(self.owner, 'atoms_order', Rec())
+        return self
+
+    def __exit__(self, *a):
+        setattr(self.owner, 'atoms_order', self.orig)
+
+
+def real_charges(mol):
+    """thiele() (what `prepare_molecule` does), snapshot, then the real `standardize_charges(prepare_molecule=False)`."""
+    try:
+        mol.thiele()
+    except Exception as e:
+        return None, None, 'thiele:' + exc_name(e)
+    mol.__dict__.pop('atoms_order', None)
+    snap = lmol_ints(mol)
+    with _Orders() as rec:
+        try:
+            ch = mol.standardize_charges(prepare_molecule=False, logging=True, _fix_stereo=False)
+        except Exception as e:
+            return snap, rec.got, exc_name(e)
+    return snap, rec.got, ('ok', list(ch), wire.mol_to_ints(mol))
+
+
+def stream_charges(ctx, pool, programs):
+    programs.add('Standardize.standardize_charges')
+    cases = [(lab, m) for lab, m in charge_instances(ctx)]
+    cases += [(lab, m) for lab, m, _f, _h in pool if len(m) <= 70]
+    reqs = []
+    for lab, mol in cases:
+        c = mol.copy()
+        try:
+            if any(a.implicit_hydrogens is None for _, a in c.atoms()):
+                c.kekule()
+        except Exception:
+            pass
+        snap, orders, real = real_charges(c)
+        if snap is None:
+            ctx.dist('CHG:' + real)
+            continue
+        tail = [len(orders)]
+        for o in orders:
+            tail.append(len(o))
+            for n, r in o.items():
+                tail += [n, r]
+        reqs.append((lab, 'CHG ' + ' '.join(map(str, snap + tail)), real, len(orders)))
+    resps = core.run_driver('C14', [r[1] for r in reqs])
+    shown = 0
+    for (lab, line, real, norders), resp in zip(reqs, resps):
+        if resp.startswith('ok'):
+            _, ch, molw = [x.strip() for x in resp.split('|')]
+            model = ('ok', [int(x) for x in ch.split()], [int(x) for x in molw.split()])
+        else:
+            model = resp
+        fired = isinstance(real, tuple) and bool(real[1])
+        ctx.count(('CHG', line), nontrivial=fired)
+        ctx.dist('CHG:changed' if fired else 'CHG:nothing' if isinstance(real, tuple) else 'CHG:' + str(real))
+        if fired:
+            ctx.dist(f'CHG:orders-used:{norders}')
+            if shown < 2:
+                shown += 1
+                ctx.sample({'stream': 'CHG', 'molecule': lab, 'changed': real[1], 'agree': real == model})
+        if real != model:
+            disagree(ctx, 'CHG', lab, line, real, model)
+
+
+def real_neutralize_first(mol, keep_charge):
+    """first result of the real `_neutralize(keep_charge)` and the donor / acceptor sets it worked with (generator locals)"""
+    g = mol._neutralize(keep_charge)
+    try:
+        out, changed = next(g)
+    except StopIteration:
+        return ('nothing',)
+    loc = g.gi_frame.f_locals
+    return ('yield', sorted(loc['donors']), sorted(loc['acceptors']), sorted(changed), wire.mol_to_ints(out))
+
+
+def stream_neutralize_exact(ctx, pool, programs):
+    programs.add('AcidBase._neutralize(keep_charge=False)')
+    cases = [(lab, m) for lab, m, _f, _h in pool if len(m) <= 70]
+    for smi in NEUTRALIZE_EXTRA:
+        m = molgen.parse(smi)
+        if m is None:
+            continue
+        m = normalised(m)
+        cases.append((f'neut:{smi}', m))
+        for i in range(1 if ctx.quick else 3):
+            try:
+                cases.append((f'neut:{smi}#r{i}', molgen.renumber(ctx.rng, m)[0]))
+            except Exception:
+                pass
+    reqs = []
+    for lab, mol in cases:
+        for kc in (True, False):
+            c = mol.copy()
+            try:
+                real = real_neutralize_first(c, kc)
+            except Exception as e:
+                ctx.dist('NEUTX:' + exc_name(e))
+                real = 'crash'
+            reqs.append((lab, kc, f'NEUTX {int(kc)} ' + ' '.join(map(str, lmol_ints(c))), real))
+    resps = core.run_driver('C14', [r[2] for r in reqs])
+    shown = 0
+    for (lab, kc, line, real), resp in zip(reqs, resps):
+        parts = [x.strip() for x in resp.split('|')]
+        tag = parts[0]
+        ok = False
+        changed = isinstance(real, tuple) and real[0] == 'yield'
+        if real == 'crash':
+            ok = tag == 'crash'
+        elif tag == 'nothing':
+            ok = real == ('nothing',)
+        elif tag in ('exact', 'choice') and changed:
+            ds, acc = sorted(int(x) for x in parts[1].split()), sorted(int(x) for x in parts[2].split())
+            ok = ds == real[1] and acc == real[2]
+            if tag == 'exact':
+                ok = ok and sorted(int(x) for x in parts[3].split()) == real[3] and [int(x) for x in parts[4].split()] == real[4]
+            else:
+                ok = ok and kc and len(ds) != len(acc)      # the result itself is judged by the NEUT checker stream
+        ctx.count(('NEUTX', line), nontrivial=changed)
+        ctx.dist(f'NEUTX:kc={int(kc)}:' + (tag if tag in ('nothing', 'exact', 'choice') else 'other'))
+        if changed and tag == 'exact' and shown < 2:
+            shown += 1
+            ctx.sample({'stream': 'NEUTX', 'molecule': lab, 'keep_charge': kc, 'donors': real[1], 'acceptors': real[2], 'agree': ok})
+        if not ok:
+            disagree(ctx, 'NEUTX', f'{lab} keep_charge={kc}', line, real, resp)
 
 
 # ------------------------------------------------------------------------------------------------
